@@ -366,8 +366,11 @@ func (h *genericContextualizer) calculateCacheKey(
 	hash := sha256.New()
 	hash.Write(h.e.Hash())
 	hash.Write(stringx.ToBytes(h.id))
+	hash.Write([]byte{0})
 	hash.Write(stringx.ToBytes(strings.Join(h.fwdHeaders, ",")))
+	hash.Write([]byte{0})
 	hash.Write(stringx.ToBytes(strings.Join(h.fwdCookies, ",")))
+	hash.Write([]byte{0})
 
 	// the values of the forwarded headers and cookies are sent to the endpoint and can
 	// influence its response. So, these must be part of the key as well
@@ -385,13 +388,18 @@ func (h *genericContextualizer) calculateCacheKey(
 		}
 	}
 	hash.Write(stringx.ToBytes(payload))
+	hash.Write([]byte{0})
 	hash.Write(ttlBytes)
 	hash.Write(sub.Hash())
 
 	// iterate in a stable order. Otherwise, the key would depend on the map iteration order
+	// names and values are of variable length. Without a separator different sets
+	// of values (a=1b2, b="" and a=1, b=2b) would result in the same key
 	for _, k := range slices.Sorted(maps.Keys(values)) {
 		hash.Write(stringx.ToBytes(k))
+		hash.Write([]byte{0})
 		hash.Write(stringx.ToBytes(values[k]))
+		hash.Write([]byte{0})
 	}
 
 	return hex.EncodeToString(hash.Sum(nil))
